@@ -317,13 +317,24 @@ fn format_type_info_internal(
                 || contains_comments(access)
                 || contains_comments(type_info);
 
+            // The access modifier is separated from the type by a single space
+            // (if a line comment follows the modifier, the type is placed below it)
             let access = access.as_ref().map(|token_reference| {
-                format_token_reference(ctx, token_reference, shape + BRACKET_LEN)
+                let access = format_token_reference(ctx, token_reference, shape + BRACKET_LEN);
+                let separator = if access.has_trailing_comments(CommentSearch::Single) {
+                    vec![
+                        create_newline_trivia(ctx),
+                        create_indent_trivia(ctx, shape.increment_additional_indent()),
+                    ]
+                } else {
+                    vec![Token::new(TokenType::spaces(1))]
+                };
+                access.update_trailing_trivia(FormatTriviaType::Append(separator))
             });
 
             let access_shape_increment = access
                 .as_ref()
-                .map_or(0, |token| token.to_string().len() + 1);
+                .map_or(0, |token| token.to_string().len());
 
             let (table_type, new_type_info) = if contains_comments {
                 (TableType::MultiLine, None)
@@ -365,6 +376,15 @@ fn format_type_info_internal(
                     FormatTriviaType::NoChange,
                     FormatTriviaType::NoChange,
                 ),
+            };
+
+            // The indentation of a multiline array stands in front of its first token: the access modifier, if there is one
+            let (access, leading_trivia) = match access {
+                Some(access) => (
+                    Some(access.update_leading_trivia(leading_trivia)),
+                    FormatTriviaType::NoChange,
+                ),
+                None => (None, leading_trivia),
             };
 
             TypeInfo::Array {
